@@ -422,10 +422,18 @@ class Flow:
                 tl = self.deref_local(a)
                 if tl is not None:
                     argl.add(tl)
+            # a detached value moved into a local callee that roots that parameter before its first collection point is safe there
+            handed_over = set()
+            if c.get("local") and d is not None:
+                for k, a in enumerate(args):
+                    if a[0] == "m" and not a[1][1] and a[1][0] in prot and callee_roots_param(fx, self.maygc, d, k + 1):
+                        handed_over.add(a[1][0])
             for x, alts in prot.items():
                 if all((a & holders) or (NONOBJ in a) for a in alts):
                     continue
                 used_after = x in live_after and x != t[3][0]
+                if x in handed_over and not used_after:
+                    continue
                 if used_after or x in argl:
                     report(bi, t, x, used_after)
         # effects of the call
@@ -589,11 +597,15 @@ class Flow:
             return l
         return l
 
-    def run(self):
+    def run(self, seed=()):
         f = self.f
         n = len(f.blocks)
         IN = [None] * n
-        IN[0] = (frozenset(), ())
+        # `seed`: parameters to treat as detached values (referenced by nothing but the parameter): used to ask whether a callee
+        # roots what it is handed before it reaches a collection point
+        IN[0] = (frozenset(), tuple(sorted((p, frozenset([frozenset()])) for p in seed)))
+        for p in seed:
+            self.detached.add(p)
         work = [0]
 
         def freeze(st):
@@ -671,6 +683,25 @@ class Flow:
 
 
 _root_summ = {}
+_param_root = {}
+
+
+def callee_roots_param(fx, maygc, path, i):
+    """True iff the local function `path` roots its by-value parameter #i (a container / struct of handles) before any call in it that
+    may collect: the flow analysis of the callee, started with that parameter unprotected, reports nothing for it"""
+    key = (id(fx), path, i)
+    if key in _param_root:
+        return _param_root[key]
+    _param_root[key] = False      # recursion stop
+    g = fx.fns.get(path)
+    res = False
+    if g is not None and not g.closure and 1 <= i <= g.argc and trackable(fx, g.locals[i]) and not fx.tys(g.locals[i]).startswith("&"):
+        fl = Flow(fx, g, maygc)
+        reports = fl.run(seed=(i,))
+        dc = fl.detached_closure()
+        res = not [r for r in reports if r[2] == i or r[2] in dc]
+    _param_root[key] = res
+    return res
 
 
 def rooting_summary(fx, path):
